@@ -1652,3 +1652,101 @@ Proof.
   unfold loaded_has_reference_rules. destruct (load E S) as [L|]; [|discriminate]. intros H.
   exists L. split; [reflexivity|]. apply reference_rules_present_sound; exact H.
 Qed.
+
+(* ------------------------------------------------------------------ exhibiting [one_attribute_seed]
+   A decidable-by-evaluation description of the commonest seed: L' is L except that the entry called [name]
+   of section [sec] has one more attribute (a, v), recorded as undeclared.  All components are equalities of
+   closed terms, so for two concrete raw schemas the kernel decides them by evaluation. *)
+Definition frame_of (L : lschema) : str * str * str * bool * list lentry :=
+  (l_version L, l_library L, l_with_standard L, l_is83 L, l_attrs L).
+
+Definition replaced (sec : section) (name : str) (e' : lentry) (L : lschema) (s : section) : list lentry :=
+  if section_eqb s sec
+  then map (fun x => if str_eqb (le_name x) name then e' else x) (section_values L s)
+  else section_values L s.
+
+Definition appended_seed (L L' : lschema) (sec : section) (name a : str) (v : aval) : Prop :=
+  match find_entry L sec name, find_entry L' sec name with
+  | Some e, Some e' =>
+      frame_of L' = frame_of L
+      /\ map (section_values L') all_sections = map (replaced sec name e' L) all_sections
+      /\ le_sec e' = le_sec e
+      /\ le_attrs e' = le_attrs e ++ [(a, v)]
+      /\ le_unknown e' = le_unknown e ++ [a]
+      /\ dict_get a (le_attrs e) = None
+      /\ str_eqb a HedKey_InLibrary = false
+  | _, _ => False
+  end.
+
+Lemma map_eq_in {A B} (f g : A -> B) (l : list A) x : map f l = map g l -> In x l -> f x = g x.
+Proof.
+  induction l as [|y l IH]; intros H Hin; [destruct Hin|]. cbn in H. inversion H.
+  destruct Hin as [->|Hin]; [assumption|apply IH; assumption].
+Qed.
+
+Lemma dict_get_app_other {V} (a0 a : str) (v : V) (l : list (str * V)) :
+  a0 <> a -> dict_get a0 (l ++ [(a, v)]) = dict_get a0 l.
+Proof.
+  intros Hne. induction l as [|[k w] l IH]; cbn.
+  - apply str_eqb_false_neq in Hne. now rewrite Hne.
+  - destruct (str_eqb a0 k); [reflexivity|exact IH].
+Qed.
+
+Lemma mem_str_app x l1 l2 : mem_str x (l1 ++ l2) = mem_str x l1 || mem_str x l2.
+Proof. induction l1 as [|y l1 IH]; cbn; [reflexivity|]. rewrite IH. now rewrite orb_assoc. Qed.
+
+Lemma find_entry_name L sec name e : find_entry L sec name = Some e -> le_name e = name.
+Proof. unfold find_entry. intros H. apply find_some in H as [_ H]. apply str_eqb_spec; exact H. Qed.
+
+Lemma appended_seed_sound L L' sec name a v :
+  appended_seed L L' sec name a v ->
+  exists e e', find_entry L sec name = Some e /\ find_entry L' sec name = Some e'
+               /\ one_attribute_seed L L' sec e e' a
+               /\ dict_get HedKey_InLibrary (le_attrs e') = dict_get HedKey_InLibrary (le_attrs e)
+               /\ skip_attribute fixed_all e' a = true.
+Proof.
+  unfold appended_seed. destruct (find_entry L sec name) as [e|] eqn:Fe; [|tauto].
+  destruct (find_entry L' sec name) as [e'|] eqn:Fe'; [|tauto].
+  intros (Hf & Hv & Hs & Ha & Hu & Hnew & Hlib).
+  exists e, e'. split; [reflexivity|]. split; [reflexivity|].
+  assert (Hne_lib : HedKey_InLibrary <> a).
+  { intros <-. rewrite str_eqb_refl in Hlib. discriminate. }
+  split; [|split].
+  - unfold one_attribute_seed. unfold frame_of in Hf. inversion Hf as [[H1 H2 H3 H4 H5]].
+    split; [constructor; assumption|]. split; [exact Hs|].
+    split; [rewrite (find_entry_name _ _ _ _ Fe), (find_entry_name _ _ _ _ Fe'); reflexivity|].
+    split.
+    { intros s x Hx. pose proof (map_eq_in _ _ _ s Hv (in_all_sections s)) as Hs'. rewrite Hs' in Hx.
+      unfold replaced in Hx. destruct (section_eqb s sec) eqn:Es; [|left; exact Hx].
+      apply section_eqb_true in Es. subst s. apply in_map_iff in Hx as (x0 & Hx0 & Hin).
+      destruct (str_eqb (le_name x0) name); [right; split; [reflexivity|symmetry; exact Hx0]|left; subst; exact Hin]. }
+    split; [eapply find_entry_in; exact Fe|].
+    split; [intros a0 Hne; rewrite Ha; apply dict_get_app_other; exact Hne|].
+    split.
+    { intros a0 v0 Hin. rewrite Ha in Hin. apply in_app_or in Hin as [Hin|[Hin|[]]].
+      - right. exists v0. exact Hin.
+      - left. inversion Hin. reflexivity. }
+    intros a0 Hne. unfold skip_attribute. cbn [fx_skip_undeclared fixed_all andb]. rewrite Hu, mem_str_app.
+    intros H. apply orb_false_iff in H. tauto.
+  - rewrite Ha. apply dict_get_app_other. exact Hne_lib.
+  - unfold skip_attribute. cbn [fx_skip_undeclared fixed_all andb]. rewrite Hu, mem_str_app. cbn [mem_str].
+    rewrite str_eqb_refl. cbn. apply orb_true_r.
+Qed.
+
+(* the same for two raw schemas, with the conclusion drawn THROUGH seed_preserves_checkable *)
+Definition appended_seed_raw (E : env) (S S' : rschema) (sec : section) (name a : str) (v : aval) : Prop :=
+  match load E S, load E S' with
+  | Ok L, Ok L' => appended_seed L L' sec name a v
+  | _, _ => False
+  end.
+
+Lemma checkable_of_appended_seed E S S' sec name a v :
+  (exists L, load E S = Ok L /\ checkable E L) ->
+  appended_seed_raw E S S' sec name a v ->
+  exists L', load E S' = Ok L' /\ checkable E L'.
+Proof.
+  intros (L & HL & Hc) H. unfold appended_seed_raw in H. rewrite HL in H.
+  destruct (load E S') as [L'|]; [|tauto]. exists L'. split; [reflexivity|].
+  destruct (appended_seed_sound _ _ _ _ _ _ H) as (e & e' & _ & _ & Hseed & Hlib & Hskip).
+  exact (seed_preserves_checkable E L L' sec e e' a Hc Hseed Hlib (or_introl Hskip)).
+Qed.
